@@ -439,6 +439,11 @@ LIB_ASSUMPTIONS = [
 ]
 
 LIB_SPECS = {
+    "C10": dict(shards=16, n=dict(quick=300, thorough=5000), level="fault_enumeration",
+                floors={"roundtrips": 3000, "roundtrips_second_generation": 1000, "kill_points_hit": 600, "kills_during_temp_write": 250, "kills_during_rename": 100,
+                        "loads_after_kill": 600, "error_injections": 300, "refusal_cases": 300, "refusals_observed": 200, "valid_setups_accepted": 80,
+                        "truncated_prefixes": 5000, "renames_onto_cache_file": 100, "policy_entries_compared": 2000, "topology_hints_compared": 1000},
+                rule="per shard: N generated caches (pods with/without pod-resources, containers with partial/absent Linux resources, tags, hints, affinities, resource updates, policy entries of 11 types) saved, reloaded (also second generation) and compared through a fingerprint over every public getter; child histories of K saving operations run under strace with SIGKILL injected at the n-th write/renameat/openat/close touching the cache file or its temp file for every n until the child survives (quick 1 history x K=10, thorough 8 x K=8), the state directory loaded after every kill and compared with the pre/post hash of the unfinished operation; ENOSPC/EIO/EDQUOT/EACCES injected into the same calls; every prefix (<4 KiB, else ~200 sampled) of the next snapshot and garbage planted as the temp file; an uninjected run traced for in-place writes (rename-only); refusal matrix {cache file, state dir, containers dir} x {symlink, wrong type, fifo, g+w, o+w, both} plus 7 valid set-ups; distinct by (clause, kind, outcome class)"),
     "C06": dict(shards=16, n=dict(quick=6000, thorough=60000),
                 floors={"histories_nontrivial": 20000, "failed_ops": 200000, "offers_taken": 100000, "offers_committed_fresh": 20000, "stale_commits_attempted": 30000, "twin_compared": 30000, "releases": 100000, "reallocs_changed": 20000},
                 rule="N allocator histories per shard: a generated node set (2-8 nodes, DRAM/PMEM/HBM profiles, memory-less/movable/CPU-less nodes, 7 distance shapes, 37% with custom ExpandZone/HandleOvercommit) driven through 36-56 generated Allocate/GetOffer/Commit/Realloc/Release operations (sizes up to > capacity, unknown nodes, unavailable types, all priorities, every public request constructor) plus a final sweep committing every pooled offer; a public-observer snapshot (requests, AssignedZone of every id ever used, ZoneUsage of all 2^n masks) before and after every call; a lock-step twin allocator for offer-vs-direct-allocate; distinct = histories with >=1 failed op and >=1 offer"),
@@ -583,7 +588,7 @@ def check_lib(prop, tier, seed):
     collect_out(res, jobs, prop)
     if not res.seen:
         res.extra["distinct_nontrivial"] = res.extra.get("distinct_sum_of_shards", 0)
-    rc = finish(res, dict(spec, level="exploration", assumptions=LIB_ASSUMPTIONS))
+    rc = finish(res, dict(spec, level=spec.get("level", "exploration"), assumptions=LIB_ASSUMPTIONS))
     if rc == 0:
         shutil.rmtree(rundir, ignore_errors=True)
     return rc
@@ -766,7 +771,7 @@ for _p in RM_SPECS:
     CHECKS[_p] = check_rm
 for _p in MODE_SPECS:
     CHECKS[_p] = check_modes
-for _p in ("C06", "C07", "C08", "C16", "C19", "C20"):
+for _p in ("C06", "C07", "C08", "C10", "C16", "C19", "C20"):
     CHECKS[_p] = check_lib
 CHECKS["C17"] = check_c17
 CHECKS["C14"] = check_c14
@@ -814,4 +819,4 @@ def main(argv):
         return 2
 
 
-REPLAYS = {"C14": replay_side, "C18": replay_side, "C06": replay_lib, "C07": replay_lib, "C08": replay_lib, "C16": replay_lib, "C19": replay_lib, "C20": replay_lib, "C17": replay_c17}
+REPLAYS = {"C10": replay_lib, "C14": replay_side, "C18": replay_side, "C06": replay_lib, "C07": replay_lib, "C08": replay_lib, "C16": replay_lib, "C19": replay_lib, "C20": replay_lib, "C17": replay_c17}
